@@ -562,6 +562,20 @@ def finding_of(case, impl, why):
             return None
         if "differs from what remote" in why and rid:
             return "F18a" if _is_f18a(a[2], mt, rid) else None
+    if f[0] == "get" and impl.startswith("err ") and "but the call failed" in why:
+        # F18b, other direction: the manifest hashes to the request by the published definition but
+        # not for PortableDataHash, because bytes glued to a hash+size token (here typically a
+        # newline and the next stream name after a line-final locator) are left out of the hash
+        cid, req, fwd, local, rem, order = _parse_get(case)
+        amap = dict(rem)
+        honest = [amap[r] for r in order if amap[r][0] == "M" and spec_matches(req, amap[r][2])]
+
+        def go_ok(mt):
+            q = _go_pdh(mt)
+            return req == q or req.startswith(q + "+")
+        if honest and all(_glued(a[2]) and not go_ok(a[2]) for a in honest):
+            return "F18b"
+        return None
     if f[0] == "rw" and "relayed manifest differs" in why:
         rid, mt = unhx(f[1]), unhx(f[2])
         return "F18a" if _is_f18a(mt, unhx(impl), rid) else None
@@ -571,7 +585,8 @@ def finding_of(case, impl, why):
         # F18c: bufio.ScanLines normalisation -- final newline added / CR before LF dropped; the
         # normalised text is what was hashed and relayed
         norm = _scanlines_norm(mt)
-        if norm != mt and (expect == "" or spec_pdh(norm) == expect) and only_sig_diff(norm, out, rid) is None:
+        diff_ok = bool(set(rid) & set(" +\n")) or only_sig_diff(norm, out, rid) is None
+        if norm != mt and (expect == "" or spec_pdh(norm) == expect) and diff_ok:
             return "F18c"
     return None
 
